@@ -61,7 +61,7 @@ def draw_fault(t, data: bytes, lang: str, allow_blowup: bool = True, force_blowu
     elif kind == "fragment_only":
         p = [t.draw(14, "fault.frag")]
     elif kind == "odd_directive":
-        p = [t.draw(P, "fault.pos"), t.draw(16, "fault.which"), t.draw(3, "fault.place")]
+        p = [t.draw(P, "fault.pos"), t.draw(24, "fault.which"), t.draw(4, "fault.place")]
     elif kind == "num_mangle":
         p = [t.draw(P, "fault.pos"), t.draw(12, "fault.how")]
     elif kind == "stray_line":
@@ -209,18 +209,26 @@ def apply(f: dict, data: bytes, lang: str) -> bytes:
         d = [b"thailint: ignore[", b"thailint: ignore-start", b"thailint: ignore-start dry nesting", b"thailint: ignore[" + b"rule-x," * 800 + b"]",
              b"thailint: ignore[a.*(b, [x-, +?]", b"thailint: ignore-next-line[", b"thailint: ignore-file[", b"thailint: ignore-end",
              b"dry: ignore-block", b"dry: ignore-next", b"noqa: E501,", b"type: ignore[", b"pylint: disable=", b"nosec",
-             b"eslint-disable-next-line", b"@ts-ignore thailint: ignore[*]"][p[1] % 16]
+             b"eslint-disable-next-line", b"@ts-ignore thailint: ignore[*]",
+             b"thailint: ignore[(legacy*]", b"thailint: ignore-next-line[dry.*, [wip*]", b"thailint: ignore-start dry.* +todo*",
+             b"thailint: ignore[**********x]", b"thailint: ignore[*.numeric-literal, nesting.*]", b"thailint: ignore[magic-numbers",
+             b"thailint: ignore-file[*)(*]", b"thailint:ignore[ , ,]"][p[1] % 24]
         line = cm + d
         ls = _lines(data)
-        place = p[2] % 3
+        place = p[2] % 4
+        # lines on which some rule is likely to report: the directive machinery only runs for reported lines
+        hot = [i for i, l in enumerate(ls) if re.search(rb"\d{2}|print\(|console\.log|\.unwrap\(\)|\.clone\(\)|noqa|mode ==|mode in", l)]
         if place == 0:
             i = (p[0] * (len(ls) + 1)) >> 20
             ls[i:i] = [line]
             return b"\n".join(ls)
-        if place == 1:            # trailing comment on an existing line
-            i = (p[0] * max(1, len(ls))) >> 20
-            if ls:
-                ls[min(i, len(ls) - 1)] += b"  " + line
+        if place in (1, 3) and ls:            # trailing comment on an existing (preferably reported) line, or the line before it
+            cand = hot or list(range(len(ls)))
+            i = cand[(p[0] * len(cand)) >> 20]
+            if place == 1:
+                ls[i] += b"  " + line
+            else:
+                ls[i:i] = [line.replace(b"ignore[", b"ignore-next-line[", 1) if b"ignore[" in line else line]
             return b"\n".join(ls)
         return data.rstrip(b"\n") + b"\n" + line     # last line of the file, no final newline
     if k == "num_mangle":
